@@ -163,6 +163,30 @@ func iccSequences(r *ev.Run, depth int, keyPrefix string, header, desc bool) {
 		}
 	}
 	rec(nil, 0)
+	// long periodic sequences (counters, thresholds, pools warming up): for every
+	// ordered pair and triple of profiles, Read each and ask each object for its
+	// description, 150 periods in a row, in one run
+	for i := range profs {
+		for j := range profs {
+			for k := range profs {
+				if k != j && k != i && (i+j+k)%2 == 1 {
+					continue // half of the triples
+				}
+				// reads, then descriptions of the three latest objects and of the very first one, repeated
+				var seq []op
+				n := 0
+				for rep := 0; rep < 150; rep++ {
+					seq = append(seq, op{true, i}, op{true, j}, op{true, k})
+					n += 3
+					seq = append(seq, op{false, n - 3}, op{false, n - 1}, op{false, n - 2}, op{false, 0})
+				}
+				run(seq)
+				if r.NViolations() > 25 {
+					break
+				}
+			}
+		}
+	}
 	r.Eval(seqs)
 	r.DistinctN(seqs)
 	r.Set(keyPrefix+"_sequences", seqs)
